@@ -347,7 +347,22 @@ def extract_vmem():
             else: problems.append(f'munmap of unrecognised length `{ln}`')
     else: problems.append('Drop for HeapStorage not found')
     nm = re.search(r'#\[cfg\(feature = "vmem"\)\]\s*fn\s+new\b(.*?)\n    \}', hm, re.S)
-    forgotten = bool(nm and 'ManuallyDrop' in nm.group(1))
+    # the source box gives up its items (ManuallyDrop) only AFTER the mapping was built: a construction that is rejected (panic in
+    # vmem_helper::new) must still destroy the items through the box
+    forgotten = bool(nm and 'ManuallyDrop' in nm.group(1) and 0 <= nm.group(1).find('vmem_helper::new') < nm.group(1).find('ManuallyDrop'))
+    # every system call / copy of vmem_helper::new is unconditional: only the fn body, `unsafe { }` and `for view in [..]` may enclose it
+    for mm in events:
+        if mm.group(1).startswith('for'): continue
+        depth_hdrs = []; last = 0
+        for i, ch in enumerate(body[:mm.start()]):
+            if ch == '{': depth_hdrs.append(body[last:i].strip()); last = i + 1
+            elif ch == '}':
+                if depth_hdrs: depth_hdrs.pop()
+                last = i + 1
+            elif ch == ';': last = i + 1
+        for h in depth_hdrs[1:]:
+            if not (h == 'unsafe' or h.endswith('= unsafe') or re.match(r'for\s+\w+\s+in\s+\[', h)):
+                problems.append(f'`{mm.group(1).strip("( ")}` of vmem_helper::new is conditional (inside `{h[:40]}`)'); break
     return calls, (drops_first, halves, forgotten), problems
 
 def rust_expr_to_coq(e, names):
